@@ -14,6 +14,22 @@ import DclabModel.DriveUtil
     spill <c11 … c33> <x1 x2 x3>              → y1 y2 y3
     comp <ct21 ct31 ct12 ct32 ct13 ct23> <y1 y2 y3> → x1 x2 x3 | err:value | err:singular
     dedup <x,y> …                             → points | `-`
+    prnc <c> <s> <fltEps> <dblEps> <x,y> …     → `none` | m00 mu20 mu11 mu02 of the contour rotated by
+                                                 (cos, sin) = (c, s)  (`mprnc` of `get_inert_ratio_prnc`)
+    compch <k> <ct21 ct31 ct12 ct32 ct13 ct23> <y1 y2 y3> → x_k | err:value | err:singular
+                                                 (`correct_crosstalk(…, fl_channel=k)`)
+    two <cab> <cba> <u> <v>                   → xa xb   (closed 2×2 form)
+    brightb <avg:0|1> <sd:0|1> <off> | <m:img:bg> … | …   → `A a1 … S v1 …` | err:value
+                                                 (batch `get_bright_bc`; off = `-` | `s:<o>` | `a:<o1>,<o2>,…`;
+                                                 S = variances)
+    percb <off> | <m:img:bg> … | …            → `P10 … P90 …` | err:value   (batch `get_bright_perc`)
+    lcl <max_events> <i,j,…|-> <idx> …        → one token per access (`c:i` computed, `h:i` hit —
+                                                 i = whose contour was returned, `x` get_contour raised,
+                                                 `ie` stray IndexError), then `idx <indices|->`
+                                                 (`LazyContourList` over events of which i,j,… have no contour)
+    lclops <max_events> <i,j,…|-> <op> …       → one token per user-level access (`ok:i,j,…` = whose contours
+                                                 were returned, `x`, `ie`), then `idx <indices|->`;
+                                                 op = `i:<k>` (integer index) | `m:<k1,k2,…>` (slice / index array)
 -/
 open DclabModel.Feat DclabModel.DriveUtil
 
@@ -33,6 +49,38 @@ def showRats (xs : List Rat) : String := joinWith " " (xs.map showRat)
 
 def showPts (ps : List Pt) : String :=
   if ps.isEmpty then "-" else joinWith " " (ps.map (fun p => showRat p.1 ++ "," ++ showRat p.2))
+
+/-- split a token list at the `|` tokens -/
+def splitBars (ws : List String) : List (List String) :=
+  ws.foldr (fun w acc =>
+    if w = "|" then [] :: acc
+    else match acc with
+      | [] => [[w]]
+      | g :: r => (w :: g) :: r) [[]]
+
+def parseOff (s : String) : Option BgOff :=
+  if s = "-" then some .none
+  else if s.startsWith "s:" then (parseRat? (s.drop 2).toString).map .scalar
+  else if s.startsWith "a:" then
+    (((s.drop 2).toString.splitOn ",").filter (· ≠ "")).mapM parseRat? |>.map .array
+  else none
+
+def showLclOut : LclOut Unit Nat → String
+  | .hit c => "h:" ++ toString c
+  | .computed c => "c:" ++ toString c
+  | .raised _ => "x"
+  | .indexError => "ie"
+
+def parseLclOp (s : String) : Option LclOp :=
+  if s.startsWith "i:" then (s.drop 2).toString.toNat?.map .int
+  else if s.startsWith "m:" then
+    (((s.drop 2).toString.splitOn ",").filter (· ≠ "")).mapM String.toNat? |>.map .many
+  else none
+
+def showLclRes : Except (LclFail Unit) (List Nat) → String
+  | .ok cs => "ok:" ++ showNats cs
+  | .error (.raised _) => "x"
+  | .error .indexError => "ie"
 
 def handle (_ : Unit) (line : String) : Unit × String :=
   let bad := ((), "bad-op")
@@ -101,6 +149,69 @@ def handle (_ : Unit) (line : String) : Unit × String :=
       | .error .negative => ((), "err:value")
       | .error .singular => ((), "err:singular")
     | _ => bad
+  | "prnc" :: c :: s :: fe :: de :: pts =>
+    match parseRat? c, parseRat? s, parseRat? fe, parseRat? de, pts.mapM parsePt with
+    | some c, some s, some fe, some de, some cont =>
+      match prncSq fe de c s cont with
+      | none => ((), "none")
+      | some _ =>
+        let r := rotatedSecond de c s cont
+        ((), showRats [r.1, r.2.1, r.2.2.1, r.2.2.2])
+    | _, _, _, _, _ => bad
+  | "compch" :: k :: rest =>
+    match k.toNat?, rest.mapM parseRat? with
+    | some k, some [ct21, ct31, ct12, ct32, ct13, ct23, y1, y2, y3] =>
+      match correctChannel k ct21 ct31 ct12 ct32 ct13 ct23 (y1, y2, y3) with
+      | .ok x => ((), showRat x)
+      | .error .channel => ((), "err:value")
+      | .error .negative => ((), "err:value")
+      | .error .singular => ((), "err:singular")
+    | _, _ => bad
+  | "two" :: rest =>
+    match rest.mapM parseRat? with
+    | some [cab, cba, u, v] =>
+      if 1 - cab * cba = 0 then ((), "err:singular")
+      else let t := twoChannel cab cba u v; ((), showRats [t.1, t.2])
+    | _ => bad
+  | "brightb" :: a :: sd :: off :: rest =>
+    match parseOff off, ((splitBars rest).filter (· ≠ [])).mapM (·.mapM parsePx) with
+    | some off, some ev =>
+      if (a = "0" ∨ a = "1") ∧ (sd = "0" ∨ sd = "1") then
+        match brightBcBatch ev off (a = "1") (sd = "1") with
+        | none => ((), "err:value")
+        | some rs =>
+          let tags := (if a = "1" then ["A"] else []) ++ (if sd = "1" then ["S"] else [])
+          ((), joinWith " " ((tags.zip rs).map (fun (t, r) => joinWith " " (t :: r.map showRat))))
+      else bad
+    | _, _ => bad
+  | "percb" :: off :: rest =>
+    match parseOff off, ((splitBars rest).filter (· ≠ [])).mapM (·.mapM parsePx) with
+    | some off, some ev =>
+      match brightPercBatch ev off with
+      | none => ((), "err:value")
+      | some (p10, p90) =>
+        ((), joinWith " " ("P10" :: p10.map showRat ++ "P90" :: p90.map showRat))
+    | _, _ => bad
+  | "lcl" :: m :: fails :: acc =>
+    let fl? : Option (List Nat) :=
+      if fails = "-" then some [] else ((fails.splitOn ",").filter (· ≠ "")).mapM (·.toNat?)
+    match m.toNat?, fl?, parseNats acc with
+    | some m, some fl, some acc =>
+      let f : Nat → Except Unit Nat := fun i => if fl.contains i then .error () else .ok i
+      let (d, outs) := lclRun (lclGet f m) Lcl.empty acc
+      ((), joinWith " " (outs.map showLclOut) ++ " idx "
+           ++ (if d.indices.isEmpty then "-" else showNats d.indices))
+    | _, _, _ => bad
+  | "lclops" :: m :: fails :: ops =>
+    let fl? : Option (List Nat) :=
+      if fails = "-" then some [] else ((fails.splitOn ",").filter (· ≠ "")).mapM (·.toNat?)
+    match m.toNat?, fl?, ops.mapM parseLclOp with
+    | some m, some fl, some ops =>
+      let f : Nat → Except Unit Nat := fun i => if fl.contains i then .error () else .ok i
+      let (d, outs) := lclOps f m Lcl.empty ops
+      ((), joinWith " " (outs.map showLclRes) ++ " idx "
+           ++ (if d.indices.isEmpty then "-" else showNats d.indices))
+    | _, _, _ => bad
   | "dedup" :: pts =>
     match pts.mapM parsePt with
     | some c => ((), showPts (removeDuplicates c))
